@@ -36,18 +36,25 @@ impl Iterator for Chars<'_> {
             return None;
         }
 
-        let width = utf8_width::get_width(self.bytes[self.pos]);
+        let first = self.bytes[self.pos];
+        let width = utf8_width::get_width(first);
         if width == 1 {
             self.pos += 1;
-            Some(Ok(self.bytes[self.pos - 1] as char))
+            Some(Ok(first as char))
         } else {
-            let c = std::str::from_utf8(&self.bytes[self.pos..self.pos + width]);
-            if let Ok(chr) = c {
+            // An invalid leading byte (width 0) and a truncated or malformed sequence yield the
+            // byte itself.
+            let chr = self
+                .bytes
+                .get(self.pos..self.pos + width)
+                .and_then(|bytes| std::str::from_utf8(bytes).ok())
+                .and_then(|s| s.chars().next());
+            if let Some(chr) = chr {
                 self.pos += width;
-                Some(Ok(chr.chars().next().unwrap()))
+                Some(Ok(chr))
             } else {
                 self.pos += 1;
-                Some(Err(self.bytes[self.pos]))
+                Some(Err(first))
             }
         }
     }
@@ -76,6 +83,8 @@ fn starts_with(bytes: &Bytes, starts: &Bytes, case: Case) -> bool {
                         a.to_lowercase().zip(b.to_lowercase()).all(|(a, b)| a == b)
                     }
                 }
+                // bytes that are not valid UTF-8 match byte-wise, as in the case sensitive search
+                (Err(a), Err(b)) => a == b,
                 _ => false,
             }),
     }
